@@ -131,6 +131,17 @@ def quoteWf (k : Conv) (q : Str) : Bool :=
            k.multi.bind List.head? != some c && k.single.bind List.head? != some c
   | _ => false
 
+/-- extra condition that `quoteWf` lacks: when the single-character token is a proper prefix of the
+multi-character token, the character that follows it in the multi token is not the quote
+(otherwise `single ++ closing quote` reads as the multi token) -/
+def quoteTailOk (k : Conv) (q : Str) : Bool :=
+  match q, k.multi, k.single with
+  | [c], some m, some s =>
+    (match stripPrefix s m with
+     | some (r :: _) => r != c
+     | _ => true)
+  | _, _, _ => true
+
 /-! ## Regular-expression fragment -/
 
 inductive RAtom | ch (c : Char) | any | anyStar
